@@ -12,7 +12,7 @@ import MirVerif.Model.PPMacroUnit
                                `<c11> <c2m applied> <minimal extra fix mask | ->`
   mirdrv_c09 exprmask <mask>   one expression per line → result of `c2mEvalG mask`
   mirdrv_c09 strings           one hex string s per line → S stringify s / D destringifyC (stringify s) /
-                               R destringifyC s / F destringifyFixed (stringify s)
+                               R destringifyC s
   results are  v<s|u><hex64> | divzero | undef | parseerr
 -/
 open MirVerif.PP
@@ -134,8 +134,6 @@ partial def strLoop (h : IO.FS.Stream) : IO Unit := do
   IO.println s!"S {hexOfChars (stringify s)}"
   IO.println s!"D {hexOfChars (destringifyC (stringify s))}"
   IO.println s!"R {hexOfChars (destringifyC s)}"
-  IO.println s!"F {hexOfChars (destringifyFixed (stringify s))}"
-  IO.println s!"Q {hexOfChars (destringifyFixed s)}"
   strLoop h
 
 def main (args : List String) : IO Unit := do
